@@ -490,7 +490,7 @@ impl Model {
         }
         for _ in 0..how_many {
             let i = rng.usize(all.len());
-            match all[i] {
+            match &mut *all[i] {
                 P::Layers { first, n } => {
                     if nl == 0 {
                         continue;
